@@ -135,11 +135,11 @@ func (f *FieldCopyFromGenerator) genPrimitiveBody(g *j.Group) {
 func (f *FieldCopyFromGenerator) genListOrMapIterator(g *j.Group, typ *j.Statement, els func(g *j.Group)) {
 	objFieldName := "obj." + f.Name
 
-	// obj.List = make([]string, len(v.Elems)) - same for maps
-	g.Id(objFieldName).Op("=").Make(j.Id(f.i.WithType(f.GoType)), j.Len(j.Id("v.Elems")))
-
 	// if !v.Null
 	g.If(j.Id("!v.Null && !v.Unknown")).BlockFunc(func(g *j.Group) {
+		// obj.List = make([]string, len(v.Elems)) - same for maps
+		g.Id(objFieldName).Op("=").Make(j.Id(f.i.WithType(f.GoType)), j.Len(j.Id("v.Elems")))
+
 		// for k, el := range v.Elems - where k is either index or map key
 		g.For(j.List(j.Id("k"), j.Id("a"))).Op(":=").Range().Id("v.Elems").BlockFunc(func(g *j.Group) {
 			// v, ok := a.(types.String)
@@ -148,7 +148,10 @@ func (f *FieldCopyFromGenerator) genListOrMapIterator(g *j.Group, typ *j.Stateme
 				f.errAttrConversionFailure(f.Path, typ.GoString()),
 			).Else().BlockFunc(els)
 		})
-	})
+	}).Else().Block(
+		// obj.List = make([]string, 0): a null or unknown value carries no elements, whatever its Elems hold
+		j.Id(objFieldName).Op("=").Make(j.Id(f.i.WithType(f.GoType)), j.Lit(0)),
+	)
 }
 
 // genPrimitive generates CopyFrom fragment for a primitive field, wrapped by oneOf extraction
